@@ -321,12 +321,6 @@ def known_region(B):
             return 'C09-K1'
         if r.get('gradop') == 'bdry=1':
             return 'C09-K2'
-        if 'array' in r.get('huber', ''):
-            return 'C09-K3'
-    # (linear f + c) flagged linear: the flag itself and everything that
-    # takes the linear short-cut on top of it
-    if any(b.region.get('qplin') for b in B.nodes()):
-        return 'C09-K7'
     return None
 
 
@@ -658,26 +652,19 @@ def _check_node(B, pts, top, fd, ctx, probe=True):
             note('fd_order_test_failed')
 
     # ---- (2) derivative(x)(d) ----------------------------------------------
-    D = None
-    if sk == 'field' and (not probe or not top):
-        # (probed at the top node only, so that parts of field expressions
-        # do not mask what happens above them)
-        strata.append('excluded:C09-K4')
-    else:
-        try:
-            D = f.derivative(xe)
-        except Exception as e:  # noqa
-            if sk == 'field':
-                raise Violation(sig('derivative-crash'),
-                                'derivative(x) raises {}: {}'.format(
-                                    type(e).__name__, str(e)[:100]))
-            raise
-    if D is not None:
-        dv = _fval(D(de))
-        hit('derivative')
+    try:
+        D = f.derivative(xe)
+    except Exception as e:  # noqa
+        if sk == 'field':
+            raise Violation(sig('derivative-crash'),
+                            'derivative(x) raises {}: {}'.format(
+                                type(e).__name__, str(e)[:100]))
+        raise
+    dv = _fval(D(de))
+    hit('derivative')
     t = 64 * eps * max(n, 1) * (abs(g) + float(np.sum(geo.w * np.abs(gf) *
                                                       np.abs(df))))
-    if D is not None and not abs(dv - g) <= t:
+    if not abs(dv - g) <= t:
         raise Violation(
             sig('derivative'),
             'derivative(x)(d) = {!r} but <gradient(x), d> = {!r} (tol '
